@@ -63,7 +63,7 @@ def main() -> int:
     code = chk.finish()
     if a.update_ledger:
         if code == 0 and not a.only:
-            core.update_ledger(a.prop, [o.name for o in chk.obligations])
+            core.update_ledger(a.prop, [o.name for o in chk.obligations], a.tier)
             print(f"ledger updated: {len(chk.obligations)} obligations")
         else:
             print("ledger NOT updated (exit code != 0 or --only given)")
